@@ -330,6 +330,16 @@ def observe(archive, case):
             bad = f"cell {i} listed twice by data()"
         rows[i] = {"tok": tok, "obj": F(float(d["objective"][k])), "thr": F(float(d["threshold"][k])),
                    "meas": [F(float(x)) for x in d["measures"][k]]}
+    if sd >= 11 and len(d["index"]):
+        # wide vector fields through the data-frame view: get_field / iterelites give the stored vectors, component
+        # j in place j (the columns are named <field>_<j>: 10 comes after 9, not after 1)
+        df = archive.data(["solution", "objective"], return_type="pandas")    # (rank-2 extra fields have no pandas form)
+        sol = np.asarray(df.get_field("solution"))
+        if sol.shape != np.asarray(d["solution"]).shape or sol.tobytes() != np.asarray(d["solution"]).tobytes():
+            bad = bad or "ArchiveDataFrame.get_field('solution') differs from data()['solution'] (wide vectors)"
+        first = next(iter(df.iterelites()))
+        if np.asarray(first["solution"]).tobytes() != np.asarray(d["solution"][0]).tobytes():
+            bad = bad or "ArchiveDataFrame.iterelites() yields another solution vector than data() (wide vectors)"
     st = archive.stats
     be = archive.best_elite
     best = None
@@ -1195,6 +1205,8 @@ def gen_case(rng, profile="mixed", kinds=("grid", "cvt", "sb"), cma=False, dtype
         # only tell the two precisions apart if nothing about the objective is kept in the measures' precision
         case["dtype"] = "f64"
     case["sol_dim"] = rng.choice([1, 2, 3])
+    if rng.random() < 0.06:
+        case["sol_dim"] = rng.choice([11, 12, 23])      # wide vectors: the pandas view names their columns x_0 .. x_22
     case["off"] = q(rng.choice([F(0), F(-8), F(3, 2), F(-100)]))
     if cma and case["kind"] != "sb":
         case["lr"] = q(rng.choice([F(0), F(1, 4), F(1, 2), F(3, 4), F(1), F(1, 10), F(3, 10), F(9, 10), F(1, 100)]))
@@ -1264,3 +1276,99 @@ def guarded(run, props):
 def run_case(case, props, exact_thr=False):
     run = Run(case, props, exact_thr=exact_thr)
     return guarded(run, props)
+
+
+# ---------------------------------------------------------------------------------------------------- scale (oracle only)
+
+def gen_scale(rng):
+    """Archives of 10^5 .. 10^6 cells (flat indices beyond 65536 and 2^17) with batches that put several hundred
+    candidates into several hundred distinct cells in ONE add (more than any block / fast-path threshold of a few
+    hundred), a clear in between, CMA-MAE or elitist: the rules are judged per cell, directly on the specification."""
+    side = rng.choice([300, 400, 1000])
+    return {"kind": "scale", "side": side, "n": rng.choice([900, 2000, 3000]), "dtype": rng.choice(["f64", "f64", "f32"]),
+            "mae": rng.random() < 0.75, "seed": rng.randrange(10**6), "high": rng.random() < 0.7,
+            "ops": [{"op": "add"}, {"op": "add"}, {"op": "clear"}, {"op": "add"}]}
+
+
+def run_scale(case, props):
+    """C05: thresholds; C02: status / value against the pre-call archive; C06: statistics against data(); C01-style winner."""
+    from ribs.archives import GridArchive
+    side, n = case["side"], case["n"]
+    r = np.random.default_rng(case["seed"])
+    npdt = NP[case["dtype"]]
+    tol = 1e-9 if case["dtype"] == "f64" else 2e-4
+    lr, tmin = (0.5, 0.0) if case["mae"] else (1.0, -np.inf)
+    kw = dict(learning_rate=0.5, threshold_min=0.0) if case["mae"] else {}
+    a = GridArchive(solution_dim=1, dims=[side, side], ranges=[(0, side), (0, side)], dtype=npdt, **kw)
+
+    def fail(prop, what):
+        lab = next((p for p in (prop, "C05", "C02", "C06", "C01") if p in props), None)
+        return Failure("oracle", f"[{lab}] {side}x{side} {case['dtype']} {'CMA-MAE (a=1/2, threshold_min=0)' if case['mae'] else 'elitist'} "
+                       f"archive, one add of {n} candidates: {what}") if lab else None
+
+    thr, elite = {}, {}          # cell -> threshold, cell -> (objective, token)
+    tok = 0
+    for op in case["ops"]:
+        if op["op"] == "clear":
+            a.clear()
+            thr, elite = {}, {}
+        else:
+            ncell = max(300, n // 3)
+            rows = r.integers(side * 4 // 5 if case["high"] else 0, side, size=ncell)
+            cols = r.integers(0, side, size=ncell)
+            pick = r.integers(0, ncell, size=n)
+            obj = r.integers(-8, 160, size=n).astype(np.float64) / 4.0          # dyadic, many exact ties
+            meas = np.stack([rows[pick] + 0.5, cols[pick] + 0.5], axis=1)
+            sol = (np.arange(n, dtype=np.float64) + tok)[:, None]
+            info = a.add(sol, obj, meas)
+            cells = rows[pick].astype(np.int64) * side + cols[pick]
+            status, value = np.asarray(info["status"]), np.asarray(info["value"], dtype=np.float64)
+            by = {}
+            for k in range(n):
+                by.setdefault(int(cells[k]), []).append(k)
+            for c, ks in by.items():
+                t0 = thr.get(c)
+                pre = tmin if t0 is None else t0
+                base = (0.0 if not case["mae"] else tmin) if t0 is None else t0
+                acc = [k for k in ks if obj[k] > pre]
+                for k in ks:
+                    want_s = 0 if obj[k] <= pre else (2 if t0 is None else 1)
+                    if int(status[k]) != want_s or abs(value[k] - (obj[k] - base)) > tol * max(1.0, abs(obj[k]) + abs(base)):
+                        return fail("C02", f"candidate {tok + k} (objective {obj[k]}, cell {c}, prior threshold "
+                                    f"{'none' if t0 is None else t0}): status {int(status[k])} value {value[k]}, expected "
+                                    f"{want_s} and {obj[k] - base}")
+                if acc:
+                    kk = len(acc)
+                    m = float(np.mean(obj[acc]))
+                    w = (1 - lr)**kk
+                    thr[c] = max(obj[acc]) if not case["mae"] else w * pre + (1 - w) * m
+                    kbest = max(acc, key=lambda k: (obj[k], -k))
+                    if not case["mae"]:
+                        cur = elite.get(c)
+                        if cur is None or obj[kbest] > cur[0]:
+                            elite[c] = (float(obj[kbest]), tok + kbest)
+                    else:
+                        elite[c] = (float(obj[kbest]), tok + kbest)
+            tok += n
+        d = a.data()
+        got = {int(i): (float(o), int(s[0]), float(t)) for i, o, s, t in zip(d["index"], d["objective"], d["solution"], d["threshold"])}
+        if set(got) != set(elite):
+            return fail("C05", f"occupied cells differ from the cells that accepted a candidate ({len(got)} vs {len(elite)})")
+        for c, (o, t_, th) in got.items():
+            if (o, t_) != elite[c]:
+                return fail("C05", f"cell {c} holds candidate {t_} (objective {o}) but the highest-objective accepted candidate, "
+                            f"earliest first on ties, is {elite[c][1]} (objective {elite[c][0]})")
+            if abs(th - thr[c]) > tol * max(1.0, abs(thr[c])):
+                return fail("C05", f"cell {c} threshold {th} ≠ (1-a)^k t + (1-(1-a)^k) m = {thr[c]}")
+        st = a.stats
+        objs = np.array([v[0] for v in got.values()], dtype=np.float64)
+        nel = len(got)
+        want = {"num_elites": nel, "coverage": nel / side**2, "qd_score": float(objs.sum()) if nel else 0.0,
+                "obj_mean": float(objs.mean()) if nel else None}
+        for name, w in want.items():
+            g = getattr(st, name)
+            if (w is None) != (g is None) or (w is not None and abs(float(g) - w) > max(tol, 1e-6 if case["dtype"] == "f32" else 0) * max(1.0, abs(w)) * max(1, nel if name == "qd_score" and case["dtype"] == "f32" else 1)):
+                return fail("C06", f"stats.{name} = {g} but the {nel} stored elites give {w}")
+        if len(a) != nel or (nel == 0) != bool(a.empty):
+            return fail("C06", f"len {len(a)} / empty {a.empty} with {nel} stored elites")
+    return None
